@@ -170,11 +170,12 @@ func traceInto(s *Sources, v ssa.Value, depth int, seen map[ssa.Value]bool) {
 			switch a := x.X.(type) {
 			case *ssa.FieldAddr:
 				s.addField(FieldOfAddr(a))
-				traceInto(s, a.X, depth, seen)
-				// a field of a locally built struct: also the values stored into that field
+				// a field of a locally built struct: the values stored into that field (and only that field)
 				if al, ok := a.X.(*ssa.Alloc); ok {
 					traceAllocField(s, al, a.Field, depth, seen)
+					return
 				}
+				traceInto(s, a.X, depth, seen)
 				return
 			case *ssa.Alloc:
 				traceAlloc(s, a, depth, seen)
@@ -293,6 +294,10 @@ func traceAllocField(s *Sources, al *ssa.Alloc, field int, depth int, seen map[s
 		return
 	}
 	for _, r := range *refs {
+		// a store of the whole struct defines the field as well
+		if st, ok := r.(*ssa.Store); ok && st.Addr == al {
+			traceInto(s, st.Val, depth, seen)
+		}
 		if u, ok := r.(*ssa.FieldAddr); ok && u.Field == field {
 			for _, rr := range *u.Referrers() {
 				if st, ok := rr.(*ssa.Store); ok && st.Addr == u {
@@ -731,4 +736,52 @@ func (s *Sources) HasCallNamed(name string) bool {
 		}
 	}
 	return false
+}
+
+// OperandSlice returns the intra-procedural backward slice of v: every value reachable through operands (calls
+// depend on their callee value and all arguments; loads of a local cell depend on every value stored into it).
+// Callees are not entered.
+func OperandSlice(v ssa.Value) map[ssa.Value]bool {
+	seen := map[ssa.Value]bool{}
+	var walk func(v ssa.Value)
+	walk = func(v ssa.Value) {
+		if v == nil || seen[v] {
+			return
+		}
+		seen[v] = true
+		if in, ok := v.(ssa.Instruction); ok {
+			for _, op := range in.Operands(nil) {
+				if *op != nil {
+					walk(*op)
+				}
+			}
+		}
+		if al, ok := v.(*ssa.Alloc); ok {
+			var stores func(addr ssa.Value)
+			stores = func(addr ssa.Value) {
+				if addr.Referrers() == nil {
+					return
+				}
+				for _, ref := range *addr.Referrers() {
+					switch x := ref.(type) {
+					case *ssa.Store:
+						if x.Addr == addr {
+							walk(x.Val)
+						}
+					case *ssa.IndexAddr:
+						if x.X == addr {
+							stores(x)
+						}
+					case *ssa.FieldAddr:
+						if x.X == addr {
+							stores(x)
+						}
+					}
+				}
+			}
+			stores(al)
+		}
+	}
+	walk(v)
+	return seen
 }
